@@ -15,6 +15,8 @@ text identifies itself.
 """
 from __future__ import annotations
 
+import itertools
+
 import re
 
 from .. import common, drive, gen, refmodel, xf
@@ -470,9 +472,67 @@ def loop_text_forms(ctx):
             ctx.viol(key, msg, {"klass": "loop-text", "sheets_md": common.sheets_to_md(sheets)[:2500], "sheets": {n: [list(h), r] for n, (h, r) in sheets.items()}})
 
 
+def table_list_text_forms(ctx):
+    """A table-list section shows its own label and hint through the generated heading note (a group's <hint> is never written into the body):
+    whatever the author wrote there - plain or per language - is what a user of each language sees on that note."""
+    from ..model import Form, Row
+    from ..refmodel import texts
+    k = 0
+    for langs in ([], ["en", "fr"], ["English (en)", "French (fr)"]):
+        for lshape, hshape in itertools.product(("plain", "translated", "one-language", "none"), ("plain", "translated", "one-language", "none")):
+            for sk in ("group", "repeat"):
+                k += 1
+                if not ctx.mine(k):
+                    continue
+                if (lshape == "none" and hshape == "none") or (not langs and {lshape, hshape} & {"translated", "one-language"}):
+                    continue
+                cells = {"appearance": "table-list" if k % 3 else "table-list compact"}
+                for base, shape in (("label", lshape), ("hint", hshape)):
+                    if shape == "plain":
+                        cells[base] = f"{base} plain {k}"
+                    elif shape == "translated":
+                        for L in langs:
+                            cells[f"{base}::{L}"] = f"{base} {L[:2]} {k}"
+                    elif shape == "one-language":
+                        cells[f"{base}::{langs[k % 2]}"] = f"{base} only {k}"
+                f = Form()
+                qcells = {"label": "Q"} if not langs or k % 2 else {f"label::{L}": f"Q {L[:2]}" for L in langs}
+                f.survey = [Row(sk, f"begin {sk}", "tl", cells, [Row("q", "select_one l1", "s1", dict(qcells)), Row("q", "select_one l1", "s2", dict(qcells))])]
+                f.choices = {"l1": [{"name": "a", "label": "A"}, {"name": "b", "label": "B"}]}
+                o = drive.convert_form(f)
+                ctx.case(sig=f"table-list-text|{langs}|{lshape}|{hshape}|{sk}")
+                ctx.ctr("table_list_text_forms")
+                wit = common.witness(f, klass="table-list-text")
+                if not o.ok:
+                    ctx.viol("table-list:rejected", f"a table-list {sk} with {lshape} label and {hshape} hint was refused: {o.brief()}", wit)
+                    continue
+                p = xf.Parsed(o.xform)
+                rm = refmodel.RM(f)
+                obs, out_langs = effective(p, rm)
+                note = next((e.path for e in rm.entries if e.kind == "tl-label"), None)
+                D = default_language(f)
+                for base in ("label", "hint"):
+                    t = texts(cells, base)
+                    if not t:
+                        continue
+                    g = obs.get((note, base))
+                    ctx.ctr("triples_compared", max(1, len(out_langs)))
+                    if g is None:
+                        ctx.viol(f"table-list:{base}:not-shown", f"the {base} written on the table-list {sk} ({t}) is shown nowhere: the heading note {note} has no {base}", wit)
+                        continue
+                    for L in (out_langs or [None]):
+                        shown = g[1] if g[0] == "inline" else g[1].get(L)
+                        want = t.get(L, t.get(None) if (L == D or L is None or L == "default") else None)
+                        if None in t and L not in t and g[0] == "inline":
+                            want = t[None]
+                        if want is not None and shown != want:
+                            ctx.viol(f"table-list:{base}:wrong-text", f"heading note {note} {base}, language {L!r}: shows {shown!r}, the {sk} row says {want!r}", wit)
+
+
 def run_shard(ctx):
     loop_text_forms(ctx)
     search_twin_forms(ctx)
+    table_list_text_forms(ctx)
     pl = plan(ctx.tier, ctx.seed)
     for i in range(pl["n"]):
         if not ctx.mine(i):
@@ -509,6 +569,9 @@ def replay(w):
     def chk(ctx, wit):
         if wit.get("klass") == "loop-text":
             loop_text_forms(ctx)  # the family is small and deterministic: run it whole
+            return
+        if wit.get("klass") == "table-list-text":
+            table_list_text_forms(ctx)
             return
         if wit.get("klass") == "search-twin":
             search_twin_forms(ctx)
